@@ -47,6 +47,16 @@ def gen_poly(rng, d):
         p = np.polynomial.chebyshev.cheb2poly(c)
         p = np.concatenate([p, np.zeros(d + 1 - len(p))])
         return [int(round(x)) for x in p] if d <= 20 else [float(x) for x in p], "integer-T_d"
+    if r < 0.2:
+        # written in the monomial basis with exact zero coefficients of the polynomial's own parity (a x^d + b x^(d-4) ...)
+        idx = list(range(d, -1, -2))
+        keep = [d] + [i for i in idx[1:] if rng.random() < 0.35]
+        p = np.zeros(d + 1)
+        for i in keep:
+            p[i] = float(rng.choice([-1, 1])) * float(rng.uniform(0.2, 4))
+        c = np.polynomial.chebyshev.poly2cheb(p)
+        p = p * (float(rng.uniform(0.1, 0.9)) / float(np.abs(c).sum()))
+        return [float(x) for x in p], "sparse-monomial"
     if r < 0.6:
         kind, norm = "feasible", float(rng.uniform(0.1, 0.9))
     elif r < 0.8:
